@@ -45,6 +45,7 @@ type AssertRec struct {
 	Model   map[string]string `json:"model,omitempty"`
 	Path    []int             `json:"path,omitempty"`
 	Harness string            `json:"harness,omitempty"`
+	Cex     string            `json:"cex,omitempty"`
 }
 
 type PathResult struct {
@@ -82,6 +83,7 @@ type Exec struct {
 	objN      int
 	u64memo   map[string]*Term
 	extra     map[string]any
+	inits     []initRec
 }
 
 func (e *Exec) end(status, why string) {
@@ -260,11 +262,17 @@ func (e *Exec) callFn(fn *ssa.Function, args []Value) []Value {
 		e.res.Stubs[name] = true
 		return m(e, args)
 	}
-	if strings.HasPrefix(fn.Name(), "verif") && fn.Blocks == nil {
-		if in, ok := intrinsics[fn.Name()]; ok {
+	if strings.HasPrefix(fn.Name(), "verif") {
+		iname := fn.Name()
+		if i := strings.Index(iname, "["); i > 0 {
+			iname = iname[:i]
+		}
+		if in, ok := intrinsics[iname]; ok {
 			return in(e, fn, args)
 		}
-		e.unsupported("unknown intrinsic " + fn.Name())
+		if fn.Blocks == nil {
+			e.unsupported("unknown intrinsic " + fn.Name())
+		}
 	}
 	if fn.Blocks == nil {
 		e.W.build(fn)
@@ -427,6 +435,8 @@ func modelKind(v Value) string {
 		return "error"
 	case *CtxV:
 		return "ctx"
+	case *EventMgr:
+		return "eventmgr"
 	case IntV:
 		return "Int"
 	case TimeV:
